@@ -572,6 +572,9 @@ public:
 	using Index		= typename Container::Index;
 
 	template <typename, Long>
+	friend class StaticArrayT;
+
+	template <typename, Long>
 	friend class DynamicArrayT;
 
 private:
@@ -612,6 +615,9 @@ public:
 	using Container = TContainer;
 	using Item		= typename Container::Item;
 	using Index		= typename Container::Index;
+
+	template <typename, Long>
+	friend class StaticArrayT;
 
 	template <typename, Long>
 	friend class DynamicArrayT;
